@@ -6,6 +6,8 @@ Lemmas tying the Chebyshev part of the hand model `Model.Poly` (polynomial.py `c
 import WallGoVerif.Model.Poly
 import Mathlib.RingTheory.Polynomial.Chebyshev
 import Mathlib.Analysis.Calculus.Deriv.Polynomial
+import Mathlib.Algebra.Polynomial.Sequence
+import Mathlib.Algebra.Polynomial.Roots
 import Mathlib.Tactic
 
 namespace Lemmas.ChebyshevModel
@@ -122,5 +124,324 @@ theorem hasDerivAt_chebyshev (r : Restriction) (n : ℕ) (x : ℝ) :
   rw [derivative_Tbar] at h
   refine h.congr_of_eventuallyEq (Filter.Eventually.of_forall fun y => ?_)
   exact chebyshev_eq r n y
+
+
+/-- `_chebyshevDeriv` is the matrix of the `derivEntry`s: rows = all nodes of the complete grid,
+columns = the orders of the direction. -/
+theorem chebyshevDeriv_eq (d : Dir) (e : Bool) (xs : List ℝ) :
+    chebyshevDeriv (0 : ℝ) 1 2 Nat.cast d e xs
+      = xs.map (fun x => (orders d e xs.length).map (fun n => derivEntry (restrictionOf d e) n x)) := by
+  rfl
+
+/-! ## D. evaluation of the restricted Chebyshev expansion; nonsingularity of the basis-change matrix -/
+
+theorem sum_eq_list_sum (l : List ℝ) : Model.Poly.sum (0 : ℝ) l = l.sum := by
+  rw [Model.Poly.sum, List.sum_eq_foldl]
+
+theorem list_sum_map_range {β : Type*} [AddCommMonoid β] (f : ℕ → β) (n : ℕ) :
+    ((List.range n).map f).sum = ∑ i ∈ Finset.range n, f i := by
+  induction n with
+  | zero => simp
+  | succ n ih => rw [List.range_succ, List.map_append, List.sum_append, ih, Finset.sum_range_succ]; simp
+
+theorem list_eq_map_range (c : List ℝ) : c = (List.range c.length).map (fun j => c.getD j 0) := by
+  apply List.ext_getElem
+  · simp
+  · intro i h1 h2
+    simp [h1]
+
+/-- the polynomial represented by restricted-Chebyshev coefficients `c` -/
+noncomputable def chebPoly (d : Dir) (e : Bool) (len : ℕ) (c : List ℝ) : ℝ[X] :=
+  (List.zipWith (fun cj n => cj • Tbar (restrictionOf d e) n) c (orders d e len)).sum
+
+theorem evalChebyshev_exact (d : Dir) (e : Bool) (len : ℕ) (c : List ℝ) (x : ℝ) :
+    evalChebyshev (0 : ℝ) 1 2 d e len c x = (chebPoly d e len c).eval x := by
+  rw [evalChebyshev, sum_eq_list_sum, chebPoly, eval_listSum]
+  congr 1
+  generalize orders d e len = os
+  induction c generalizing os with
+  | nil => simp
+  | cons a c ih =>
+    cases os with
+    | nil => simp
+    | cons n os => simp [chebyshev_eq]
+
+
+/-- lowest order used with restriction `r` = number of boundary conditions it imposes -/
+def minOrder : Restriction → ℕ
+  | .unrestricted => 0
+  | .onesided => 1
+  | .full => 2
+
+theorem degree_Tbar (r : Restriction) (n : ℕ) (h : minOrder r ≤ n) : (Tbar r n).degree = n := by
+  have hT : (T ℝ n).degree = n := by simp [degree_T ℝ (n : ℤ)]
+  cases r
+  · simp [Tbar, hT]
+  · simp only [minOrder] at h
+    simp only [Tbar]
+    rw [degree_sub_eq_left_of_degree_lt, hT]
+    rw [hT]
+    split_ifs
+    · rw [degree_one]; exact_mod_cast (by omega : 0 < n)
+    · rw [degree_X]; exact_mod_cast (by omega : 1 < n)
+  · simp only [minOrder] at h
+    simp only [Tbar]
+    rw [degree_sub_eq_left_of_degree_lt, hT]
+    rw [hT, degree_one]; exact_mod_cast (by omega : 0 < n)
+
+theorem natDegree_Tbar (r : Restriction) (n : ℕ) (h : minOrder r ≤ n) : (Tbar r n).natDegree = n :=
+  natDegree_eq_of_degree_eq_some (degree_Tbar r n h)
+
+/-- the restricted family completed by `1, X` below its lowest order: a degree-graded sequence -/
+noncomputable def TbarSeq (r : Restriction) : Polynomial.Sequence ℝ where
+  elems' n := if n < minOrder r then X ^ n else Tbar r n
+  degree_eq' n := by
+    split_ifs with h
+    · simp
+    · exact degree_Tbar r n (by omega)
+
+theorem TbarSeq_apply (r : Restriction) (j : ℕ) : (TbarSeq r) (j + minOrder r) = Tbar r (j + minOrder r) := by
+  show (if j + minOrder r < minOrder r then X ^ (j + minOrder r) else Tbar r (j + minOrder r)) = _
+  rw [if_neg (by omega)]
+
+/-- **Linear independence of the restricted family** -/
+theorem Tbar_linearIndependent (r : Restriction) :
+    LinearIndependent ℝ (fun j : ℕ => Tbar r (j + minOrder r)) := by
+  have h := (TbarSeq r).linearIndependent.comp (fun j : ℕ => j + minOrder r) (add_left_injective _)
+  have e : (fun j : ℕ => Tbar r (j + minOrder r)) = (TbarSeq r) ∘ (fun j : ℕ => j + minOrder r) := by
+    ext1 j
+    exact (TbarSeq_apply r j).symm
+  rw [e]; exact h
+
+theorem coeffs_zero_of_vanish (r : Restriction) (ks extra : List ℝ) (hnd : (ks ++ extra).Nodup)
+    (hex : extra.length = minOrder r)
+    (hbc : ∀ x ∈ extra, ∀ n, minOrder r ≤ n → (Tbar r n).eval x = 0)
+    (c : ℕ → ℝ)
+    (hv : ∀ x ∈ ks, (∑ j ∈ Finset.range ks.length, c j • Tbar r (j + minOrder r)).eval x = 0) :
+    ∀ j < ks.length, c j = 0 := by
+  intro j hj
+  set P : ℝ[X] := ∑ j ∈ Finset.range ks.length, c j • Tbar r (j + minOrder r) with hP
+  have hdeg : P.natDegree < (ks ++ extra).toFinset.card := by
+    rw [List.toFinset_card_of_nodup hnd, List.length_append, hex]
+    have : P.natDegree ≤ ks.length - 1 + minOrder r := by
+      apply natDegree_sum_le_of_forall_le
+      intro i hi
+      have hi' := Finset.mem_range.mp hi
+      refine (natDegree_smul_le _ _).trans ?_
+      rw [natDegree_Tbar r _ (by omega)]
+      omega
+    omega
+  have hP0 : P = 0 := by
+    apply eq_zero_of_natDegree_lt_card_of_eval_eq_zero' P _ _ hdeg
+    intro x hx
+    rcases List.mem_append.mp (List.mem_toFinset.mp hx) with h | h
+    · exact hv x h
+    · rw [hP, eval_finsetSum]
+      apply Finset.sum_eq_zero
+      intro i _
+      rw [eval_smul, hbc x h _ (by omega), smul_zero]
+  exact linearIndependent_iff'.mp (Tbar_linearIndependent r) (Finset.range ks.length) c hP0 j
+    (Finset.mem_range.mpr hj)
+
+
+theorem orders_eq (d : Dir) (e : Bool) (len : ℕ) :
+    orders d e len = (List.range (len - minOrder (restrictionOf d e))).map
+      (· + minOrder (restrictionOf d e)) := by
+  cases d <;> cases e <;> simp [orders, restrictionOf, minOrder]
+
+theorem zipWith_mul_map_comm (f : ℕ → ℝ) (os : List ℕ) (c : List ℝ) :
+    List.zipWith (· * ·) (os.map f) c = List.zipWith (fun cj n => cj * f n) c os := by
+  induction os generalizing c with
+  | nil => cases c <;> simp
+  | cons n os ih => cases c <;> simp [mul_comm, ih]
+
+/-- row `i` of `chebyshevMatrix · c` is the value at node `i` of the Chebyshev expansion with
+coefficients `c` -/
+theorem mulVec_chebyshevMatrix (d : Dir) (e : Bool) (xs c : List ℝ) :
+    mulVec (0 : ℝ) (chebyshevMatrix 1 2 d e xs) c
+      = (kept d e xs).map (fun x => evalChebyshev (0 : ℝ) 1 2 d e xs.length c x) := by
+  simp only [mulVec, chebyshevMatrix, List.map_map]
+  apply List.map_congr_left
+  intro x _
+  simp only [Function.comp, evalChebyshev, zipWith_mul_map_comm]
+
+theorem chebPoly_eq_finset_sum (d : Dir) (e : Bool) (len : ℕ) (c : List ℝ)
+    (hc : c.length = (orders d e len).length) :
+    chebPoly d e len c = ∑ j ∈ Finset.range c.length,
+      c.getD j 0 • Tbar (restrictionOf d e) (j + minOrder (restrictionOf d e)) := by
+  rw [chebPoly]
+  rw [orders_eq, List.length_map, List.length_range] at hc
+  rw [orders_eq, ← hc]
+  have key : ∀ (k : ℕ) (f : ℕ → ℝ),
+      (List.zipWith (fun cj n => cj • Tbar (restrictionOf d e) n) ((List.range k).map f)
+        ((List.range k).map (· + minOrder (restrictionOf d e)))).sum
+      = ∑ j ∈ Finset.range k, f j • Tbar (restrictionOf d e) (j + minOrder (restrictionOf d e)) := by
+    intro k f
+    rw [List.zipWith_map, List.zipWith_self, list_sum_map_range]
+  have := key c.length (fun j => c.getD j 0)
+  rw [← list_eq_map_range c] at this
+  exact this
+
+theorem chebyshevMatrix_injective_core (d : Dir) (e : Bool) (xs extra : List ℝ)
+    (hnd : (kept d e xs ++ extra).Nodup)
+    (hex : extra.length = minOrder (restrictionOf d e))
+    (hbc : ∀ x ∈ extra, ∀ n, minOrder (restrictionOf d e) ≤ n →
+      (Tbar (restrictionOf d e) n).eval x = 0)
+    (c : List ℝ) (hc : c.length = (orders d e xs.length).length)
+    (hk : (kept d e xs).length = c.length)
+    (h : mulVec (0 : ℝ) (chebyshevMatrix 1 2 d e xs) c
+      = List.replicate (kept d e xs).length 0) :
+    c = List.replicate c.length 0 := by
+  rw [mulVec_chebyshevMatrix, List.eq_replicate_iff] at h
+  have hv : ∀ x ∈ kept d e xs, (chebPoly d e xs.length c).eval x = 0 := by
+    intro x hx
+    rw [← evalChebyshev_exact]
+    exact h.2 _ (List.mem_map.mpr ⟨x, hx, rfl⟩)
+  rw [chebPoly_eq_finset_sum d e _ c hc, ← hk] at hv
+  have hz := coeffs_zero_of_vanish (restrictionOf d e) (kept d e xs) extra hnd hex hbc
+    (fun j => c.getD j 0) hv
+  rw [List.eq_replicate_iff]
+  refine ⟨rfl, fun b hb => ?_⟩
+  obtain ⟨i, hi, rfl⟩ := List.getElem_of_mem hb
+  have := hz i (by omega)
+  simpa [hi] using this
+
+
+theorem kept_endpoints (d : Dir) (xs : List ℝ) : kept d true xs = xs := by
+  simp [kept, keptRange]
+
+theorem kept_pp (ys : List ℝ) (a : ℝ) : kept .pp false (ys ++ [a]) = ys := by
+  simp [kept, keptRange]
+
+theorem kept_full (d : Dir) (hd : d ≠ .pp) (zs : List ℝ) (a b : ℝ) :
+    kept d false (a :: (zs ++ [b])) = zs := by
+  cases d <;> simp_all [kept, keptRange]
+
+theorem orders_length (d : Dir) (e : Bool) (len : ℕ) :
+    (orders d e len).length = len - minOrder (restrictionOf d e) := by
+  rw [orders_eq]; simp
+
+/-- **The basis-change matrix is nonsingular.** -/
+theorem chebyshevMatrix_injective (d : Dir) (e : Bool) (xs : List ℝ) (hnd : xs.Nodup)
+    (hfirst : e = false → d ≠ .pp → xs.head? = some (-1))
+    (hlast : e = false → xs.getLast? = some 1)
+    (c : List ℝ) (hc : c.length = (orders d e xs.length).length)
+    (h : mulVec (0 : ℝ) (chebyshevMatrix 1 2 d e xs) c
+      = List.replicate (kept d e xs).length 0) :
+    c = List.replicate c.length 0 := by
+  cases e with
+  | true =>
+    refine chebyshevMatrix_injective_core d true xs [] ?_ ?_ ?_ c hc ?_ h
+    · simpa [kept_endpoints] using hnd
+    · simp [restrictionOf, minOrder]
+    · simp
+    · rw [hc, orders_length, kept_endpoints]; simp [restrictionOf, minOrder]
+  | false =>
+    obtain ⟨ys, rfl⟩ := List.getLast?_eq_some_iff.mp (hlast rfl)
+    by_cases hd : d = .pp
+    · subst hd
+      refine chebyshevMatrix_injective_core .pp false _ [1] ?_ ?_ ?_ c hc ?_ h
+      · simpa [kept_pp] using hnd
+      · simp [restrictionOf, minOrder]
+      · intro x hx n _
+        simp only [List.mem_singleton] at hx
+        subst hx
+        exact Tbar_onesided_eval_one n
+      · rw [hc, orders_length, kept_pp]; simp [restrictionOf, minOrder]
+    · have hr : restrictionOf d false = .full := by cases d <;> simp_all [restrictionOf]
+      have hh := hfirst rfl hd
+      cases ys with
+      | nil => simp at hh; norm_num at hh
+      | cons a zs =>
+        simp only [List.cons_append, List.head?_cons, Option.some.injEq] at hh
+        subst hh
+        refine chebyshevMatrix_injective_core d false _ [1, -1] ?_ ?_ ?_ c hc ?_ h
+        · rw [List.cons_append, kept_full d hd]
+          have hp : (zs ++ [1, -1]).Perm (-1 :: (zs ++ [1])) := by
+            rw [show zs ++ [1, -1] = (zs ++ [1]) ++ [-1] by simp]
+            exact List.perm_append_singleton _ _
+          exact hp.nodup_iff.mpr hnd
+        · simp [hr, minOrder]
+        · intro x hx n _
+          rw [hr]
+          simp only [List.mem_cons, List.not_mem_nil, or_false] at hx
+          rcases hx with rfl | rfl
+          · exact Tbar_full_eval_one n
+          · exact Tbar_full_eval_neg_one n
+        · rw [hc, orders_length, List.cons_append, kept_full d hd, hr]; simp [minOrder]
+
+/-! ### spanning -/
+
+theorem exists_TbarSeq_expansion (r : Restriction) (N : ℕ) (p : ℝ[X]) (hdeg : p.natDegree ≤ N) :
+    ∃ a : ℕ → ℝ, p = ∑ i ∈ Finset.range (N + 1), a i • (TbarSeq r) i := by
+  have hmem : p ∈ degreeLT ℝ (N + 1) := by
+    rw [mem_degreeLT]
+    refine lt_of_le_of_lt degree_le_natDegree ?_
+    exact_mod_cast Nat.lt_succ_of_le hdeg
+  rw [← Sequence.span_degreeLT (TbarSeq r) (fun i _ => by
+      exact isUnit_iff_ne_zero.mpr (leadingCoeff_ne_zero.mpr ((TbarSeq r).ne_zero i))),
+    show Set.Iio (N + 1) = Finset.range (N + 1) by simp,
+    Submodule.mem_span_image_finset_iff_exists_fun'] at hmem
+  obtain ⟨c, hc⟩ := hmem
+  exact ⟨c, hc.symm⟩
+
+theorem TbarSeq_full_zero : (TbarSeq .full) 0 = 1 := by
+  show (if 0 < minOrder .full then X ^ 0 else Tbar .full 0) = _
+  simp [minOrder]
+
+theorem TbarSeq_full_one : (TbarSeq .full) 1 = X := by
+  show (if 1 < minOrder .full then X ^ 1 else Tbar .full 1) = _
+  simp [minOrder]
+
+theorem TbarSeq_onesided_zero : (TbarSeq .onesided) 0 = 1 := by
+  show (if 0 < minOrder .onesided then X ^ 0 else Tbar .onesided 0) = _
+  simp [minOrder]
+
+/-- **The 'full' family spans the polynomials vanishing at both ends.** -/
+theorem mem_span_Tbar_full (M : ℕ) (p : ℝ[X]) (hdeg : p.natDegree ≤ M)
+    (h1 : p.eval 1 = 0) (hm1 : p.eval (-1) = 0) :
+    p ∈ Submodule.span ℝ ((fun n => Tbar .full n) '' Set.Icc 2 M) := by
+  obtain ⟨K, hK⟩ : ∃ K, max M 1 = K + 1 := ⟨max M 1 - 1, by omega⟩
+  obtain ⟨a, ha⟩ := exists_TbarSeq_expansion .full (K + 1) p (by omega)
+  rw [Finset.sum_range_succ', Finset.sum_range_succ', TbarSeq_full_zero, TbarSeq_full_one] at ha
+  have hS : ∀ i, (TbarSeq .full) (i + 2) = Tbar .full (i + 2) := fun i => TbarSeq_apply .full i
+  simp only [hS] at ha
+  have e1 : a 1 + a 0 = 0 := by
+    have := h1
+    rw [ha] at this
+    simpa [eval_finsetSum, Tbar_full_eval_one] using this
+  have e2 : -a 1 + a 0 = 0 := by
+    have := hm1
+    rw [ha] at this
+    simpa [eval_finsetSum, Tbar_full_eval_neg_one] using this
+  have a0 : a 0 = 0 := by linarith
+  have a1 : a 1 = 0 := by linarith
+  rw [ha, a0, a1, zero_smul, zero_smul, add_zero, add_zero]
+  apply Submodule.sum_mem
+  intro i hi
+  have := Finset.mem_range.mp hi
+  apply Submodule.smul_mem
+  apply Submodule.subset_span
+  exact ⟨i + 2, ⟨by omega, by omega⟩, rfl⟩
+
+/-- **The 'partial' family spans the polynomials vanishing at `x = 1`.** -/
+theorem mem_span_Tbar_onesided (M : ℕ) (p : ℝ[X]) (hdeg : p.natDegree ≤ M) (h1 : p.eval 1 = 0) :
+    p ∈ Submodule.span ℝ ((fun n => Tbar .onesided n) '' Set.Icc 1 M) := by
+  obtain ⟨a, ha⟩ := exists_TbarSeq_expansion .onesided M p hdeg
+  rw [Finset.sum_range_succ', TbarSeq_onesided_zero] at ha
+  have hS : ∀ i, (TbarSeq .onesided) (i + 1) = Tbar .onesided (i + 1) :=
+    fun i => TbarSeq_apply .onesided i
+  simp only [hS] at ha
+  have a0 : a 0 = 0 := by
+    have := h1
+    rw [ha] at this
+    simpa [eval_finsetSum, Tbar_onesided_eval_one] using this
+  rw [ha, a0, zero_smul, add_zero]
+  apply Submodule.sum_mem
+  intro i hi
+  have := Finset.mem_range.mp hi
+  apply Submodule.smul_mem
+  apply Submodule.subset_span
+  exact ⟨i + 1, ⟨by omega, by omega⟩, rfl⟩
 
 end Lemmas.ChebyshevModel
